@@ -89,8 +89,14 @@ def cmdline(argv=None):
     except:
         _exit()
     else:
+        # with an output encoding, render() returns encoded bytes
         if output_file:
-            open(output_file, "wt", encoding=output_encoding).write(rendered)
+            if output_encoding:
+                open(output_file, "wb").write(rendered)
+            else:
+                open(output_file, "wt").write(rendered)
+        elif output_encoding:
+            sys.stdout.buffer.write(rendered)
         else:
             sys.stdout.write(rendered)
 
